@@ -61,11 +61,16 @@ type Report struct {
 	Blocked   []string // on deadlock / cap: "task 3 (proc 1) at Mutex.Lock"
 	StepCap   bool
 	Panics    []string // panics that escaped a task (other than the abort sentinel)
+	Halts     int      // tasks ended by a Benign panic (simulated process halt)
 	SimTime   time.Duration
 	BubbleErr string // synctest's own complaint (leaked blocked goroutines), if any
 }
 
 type abortSentinel struct{}
+
+// Benign is implemented by panic values that end a task on purpose (a simulated
+// process halting); they are counted, not reported as panics.
+type Benign interface{ BenignPanic() }
 
 // Task is one schedulable goroutine.
 type Task struct {
@@ -218,7 +223,9 @@ func (s *Sim) exit(t *Task) {
 	r := recover()
 	s.mu.Lock()
 	if r != nil {
-		if _, ok := r.(abortSentinel); !ok {
+		if _, ok := r.(Benign); ok {
+			s.rep.Halts++
+		} else if _, ok := r.(abortSentinel); !ok {
 			buf := make([]byte, 4096)
 			buf = buf[:runtime.Stack(buf, false)]
 			s.rep.Panics = append(s.rep.Panics, fmt.Sprintf("task %d (%s): %v\n%s", t.ID, t.Name, r, buf))
